@@ -464,6 +464,12 @@ func (c *tctx) expr(e ast.Expr, want string) (string, []string, string) {
 					return "(" + a + " ++ " + b + ")", append(g1, g2...), "bytes"
 				}
 			}
+		case "bytes.ContainsAny":
+			if lit, ok := e.Args[1].(*ast.BasicLit); ok && lit.Kind == token.STRING {
+				b, g1, _ := c.expr(e.Args[0], "bytes")
+				chars, _ := strconv.Unquote(lit.Value)
+				return fmt.Sprintf("(go_contains_any %s %s)", b, byteList(chars)), g1, "bool"
+			}
 		case "bytes.IndexByte":
 			b, g1, _ := c.expr(e.Args[0], "bytes")
 			x, g2, _ := c.expr(e.Args[1], "int")
@@ -1905,7 +1911,16 @@ func emitTranslated(path string, msg, topics, sess, svc *pkg) bool {
 	for _, fn := range []string{"msglen", "Decode", "Len", "Encode"} {
 		translate(&w, msg, "puback.go", "PubackMessage", fn)
 	}
-	translate(&w, sess, "ackqueue.go", "Ackqueue", "index")
+	// Ackqueue.index is a one-line helper a rewrite may inline (refactors/R14): its presence is a fact of its own, and the
+	// theorem about it (Trans/SpecAckq.v T_index) is about the function if it exists
+	if _, ifd := sess.findMethod("Ackqueue", "index"); ifd != nil {
+		w.WriteString("Definition present_sessions_index : bool := true.\n")
+		translate(&w, sess, "ackqueue.go", "Ackqueue", "index")
+	} else {
+		w.WriteString("Definition present_sessions_index : bool := false.\n")
+		w.WriteString("(* sessions/ackqueue.go has no method Ackqueue.index (any more): a stand-in, so that the statement about it can be read *)\n")
+		w.WriteString("Definition go_sessions_index (aq_mask : Z) (n : Z) : option (Z) := None.\n\n")
+	}
 	translate(&w, sess, "ackqueue.go", "Ackqueue", "full")
 	translate(&w, sess, "ackqueue.go", "Ackqueue", "empty")
 	translate(&w, sess, "ackqueue.go", "", "powerOfTwo64")
